@@ -24,9 +24,12 @@ pub enum Fault {
     Flicker,
     ReturnToPrevious,
     EventAfterEnd,
+    /// Tens of thousands of zero-length frames before this frame (an application idling in one
+    /// state for a long while).
+    Idle,
 }
 
-pub const ALL_FAULTS: [Fault; 13] = [
+pub const ALL_FAULTS: [Fault; 14] = [
     Fault::None,
     Fault::Jitter,
     Fault::ZeroFrame,
@@ -40,6 +43,7 @@ pub const ALL_FAULTS: [Fault; 13] = [
     Fault::Flicker,
     Fault::ReturnToPrevious,
     Fault::EventAfterEnd,
+    Fault::Idle,
 ];
 
 impl Fault {
@@ -58,6 +62,7 @@ impl Fault {
             Fault::Flicker => "flicker",
             Fault::ReturnToPrevious => "return_to_previous",
             Fault::EventAfterEnd => "event_after_end",
+            Fault::Idle => "idle",
         }
     }
     pub fn from_name(s: &str) -> Fault {
@@ -483,6 +488,25 @@ pub fn generate(rng: &mut Rng, property: &str, deep: bool) -> Scn {
     } else {
         break;
     }
+    }
+    // One run in 400: one frame of the trace arrives after a long idle period (`Fault::Idle`).
+    if (repartition_seed >> 32) % 400 == 0 {
+        let frames: Vec<usize> = (0..ops.len()).filter(|i| matches!(ops[*i].0, Op::Advance(_))).collect();
+        if !frames.is_empty() {
+            let i = frames[((repartition_seed >> 40) % frames.len() as u64) as usize];
+            ops[i].1 = Fault::Idle;
+        }
+    }
+    // One run in nine: two animated states share one animation definition (the second gets a copy
+    // of the first's specification; `AnimSpec::build` then installs clones of one timeline).
+    // Decided from the last value of the stream, so that no other draw moves.
+    let mut spec = spec;
+    if (repartition_seed >> 8) % 9 == 0 && animated.len() >= 2 {
+        let i = animated[((repartition_seed >> 16) % animated.len() as u64) as usize];
+        let j = animated[((repartition_seed >> 24) % animated.len() as u64) as usize];
+        if i != j {
+            spec.states[j] = spec.states[i].clone();
+        }
     }
     Scn {
         spec,
